@@ -82,7 +82,8 @@ def rem(a, b, /):
     """
 
     if isinstance(a, int) and isinstance(b, int):
-        return a - b * int(a / b)
+        remainder = abs(a) % abs(b)
+        return -remainder if a < 0 else remainder
     else:
         if hasattr(a, "_cohdl_rem_"):
             rem_result = a._cohdl_rem_(b)
@@ -112,7 +113,8 @@ def truncdiv(a, b, /):
 
     if isinstance(a, int) and isinstance(b, int):
         # explicitly handle integer division
-        return int(a / b)
+        quotient = abs(a) // abs(b)
+        return -quotient if (a < 0) != (b < 0) else quotient
     else:
         if hasattr(a, "_cohdl_truncdiv_"):
             rem_result = a._cohdl_truncdiv_(b)
